@@ -428,6 +428,12 @@ func (m *Machine) callSSA(caller *frame, callpos token.Pos, fn *ssa.Function, ar
 	if atomicPkg {
 		fr.g.atomicDepth++
 		defer func() { fr.g.atomicDepth-- }()
+	} else if fr.g.atomicDepth > 0 {
+		// a library frame calls back into the program (e.g. http.HandlerFunc.ServeHTTP -> handler): the program's code
+		// is scheduled and race-checked as usual
+		saved := fr.g.atomicDepth
+		fr.g.atomicDepth = 0
+		defer func() { fr.g.atomicDepth = saved }()
 	}
 	if m.watch != nil {
 		if w := m.watch[name]; w {
